@@ -13,7 +13,9 @@ META = {
              "depth 4 for N=3, 904,004 states, plus simulated behaviours of depth 7), checks the frame action property and requires "
              "two named deviations to violate it; every emitted behaviour is replayed on real objects with the behavioural fingerprint "
              "(log-densities at two probe points, gradient, parameter names, conditioning variables, name, dim, geometry, FD flag, seeded "
-             "sample) of every live object compared after every action."),
+             "sample) of every live object compared after every action. User assignments are actions too: to a derived copy (incl. the FD switch of "
+             "a likelihood obtained by conditioning on the data; a likelihood from to_likelihood() is a documented VIEW and has no switch of its "
+             "own in the spec) and to a stand-alone original after copies were derived - only the assigned object may change."),
     "note": ("Behavioural equality is judged on the fingerprint, not on object internals; graphs/families are the fixed recipes of "
              "jointgraphs.py; Gibbs sweeps use MH block samplers (k = 20 quick / 300 thorough sweeps, i.e. up to ~1000 re-conditionings)."),
     "technique": "TLA+ spec (ObjHistory) model-checked with TLC; TLC-generated operation interleavings replayed with fingerprints of all live objects after every action",
@@ -109,8 +111,20 @@ def _mutate(o):
             val = getattr(o, var)
         except Exception:
             continue
-        if val is None or callable(val):
+        if val is None:
             continue
+        if callable(val):
+            # a parameter given as a function of the conditioning variable: assign the function shifted by one
+            try:
+                import cuqi
+                from cuqiverif import jointgraphs as jg
+                if isinstance(val, cuqi.model.Model):
+                    continue
+                names = list(cuqi.utilities.get_non_default_args(val))
+                setattr(o, var, jg._named_lambda(names, lambda *a, _f=val: np.asarray(_f(*a), dtype=float) + 1.0))
+                return var
+            except Exception:
+                continue
         try:
             a = np.asarray(val, dtype=float)
         except Exception:
@@ -186,6 +200,8 @@ class Pool:
             F = R.factors[v]
             fp["name"] = o.name
             fp["names"] = _try(lambda: 0) and list(o.get_parameter_names())
+            if hasattr(o, "FD_enabled"):
+                fp["fd"] = _try_str(lambda: o.FD_enabled)
             for k in (1, 2):
                 vals = R.completion(k)
                 if F.parents:
@@ -236,7 +252,7 @@ def _features(c):
     fixed_by = {}                # object number -> variables fixed by the Condition that created it
     f = set()
     mutated = False
-    for act, o, arg in c["hist"]:
+    for pos, (act, o, arg) in enumerate(c["hist"]):
         f.add("act:" + act)
         src = made_by.get(o)
         if act == "condition" and src == "condition":
@@ -254,9 +270,13 @@ def _features(c):
             f.add("sampler_on_cond")
         if act in CREATING and src == "condition":
             f.add("derive_from_cond")
-        if mutated and act != "mutate_copy":
+        if mutated and act not in ("mutate_copy", "mutate_original"):
             f.add("observe_after_mutate")
-        if act == "mutate_copy":
+        if act == "mutate_copy" and src == "to_likelihood":
+            f.add("mutate_derived_likelihood")
+        if act == "mutate_original" and any(a in ("cond_factor", "copy_enable_fd") and oo == o for a, oo, _ in c["hist"][:pos]):
+            f.add("mutate_original_after_deriving")
+        if act in ("mutate_copy", "mutate_original"):
             mutated = True
         if act in CREATING:
             nobj += 1
@@ -301,6 +321,9 @@ def replay_case(ctx, case, par, r, sweeps, seed):
         new = None
         effective = True            # False: the action had nothing to act on here (counted apart, see the vacuity guard)
         np.random.seed(seed + pos)
+        if act == "mutate_copy" and e["kind"] == "lik" and e.get("view"):
+            from cuqiverif.core import MachineryError
+            raise MachineryError("the specification does not switch finite differences through a view")
         try:
             with quiet():
                 if act == "condition":
@@ -315,17 +338,37 @@ def replay_case(ctx, case, par, r, sweeps, seed):
                         _skip(ctx, act, "not_conditional")
                         return
                     new = (e["obj"](**{cv[0]: _cond_value(e["obj"], "cond")}), "composite", {}, None, {})
-                elif act == "mutate_copy":
+                elif act in ("mutate_copy", "mutate_original"):
                     tgt = e["obj"]
-                    if e["kind"] not in ("factor", "composite") or not hasattr(tgt, "get_mutable_variables"):
-                        _skip(ctx, act, "no_mutable_variables")
-                        return
-                    if _mutate(tgt) is None:
-                        _skip(ctx, act, "no_numeric_parameter")
-                        return
+                    if e["kind"] == "lik":
+                        # the public switches of a derived likelihood: finite-difference gradients on / off
+                        if not hasattr(tgt, "enable_FD"):
+                            _skip(ctx, act, "likelihood_without_fd_switch")       # e.g. the constant density of an unconditional factor
+                            return
+                        if bool(getattr(tgt, "FD_enabled", False)):
+                            tgt.disable_FD()
+                        else:
+                            tgt.enable_FD()
+                        ctx.facets["mutate/lik_fd_switch"] = ctx.facets.get("mutate/lik_fd_switch", 0) + 1
+                    else:
+                        if e["kind"] not in ("factor", "composite") or not hasattr(tgt, "get_mutable_variables"):
+                            _skip(ctx, act, "no_mutable_variables")
+                            return
+                        if _mutate(tgt) is None:
+                            _skip(ctx, act, "no_numeric_parameter")
+                            return
                     e["fp"] = pool.fingerprint(e)        # this object was changed deliberately; all others must be unchanged
                 elif act == "to_likelihood":
-                    new = (e["obj"].to_likelihood(vals0[e["v"]]), "lik", {}, e["v"], {})
+                    # two realisations of the spec's action: the method, and conditioning on the data alone.  Both objects are
+                    # made and followed; which of them is the spec's new object alternates
+                    via_method = e["obj"].to_likelihood(vals0[e["v"]])
+                    via_call = e["obj"](**{jg.name(e["v"]): vals0[e["v"]]})
+                    how = (list(arg) + ["method"])[0]
+                    first, second = (via_method, via_call) if how == "method" else (via_call, via_method)
+                    ctx.facets["to_likelihood/" + how] = ctx.facets.get("to_likelihood/" + how, 0) + 1
+                    if second is not e["obj"]:
+                        pool.add(second, "lik", v=e["v"], hidden=True)
+                    new = (first, "lik", {}, e["v"], {"view": how == "method"})
                 elif act == "copy_enable_fd":
                     if hasattr(e["obj"], "enable_FD"):
                         cpy = e["obj"]()
@@ -421,7 +464,7 @@ def replay_case(ctx, case, par, r, sweeps, seed):
             ctx.observations["actions_refused"][act] += 1
             new = None
             effective = False
-            if act in ("condition", "to_likelihood", "copy_enable_fd", "apply_model", "cond_factor", "mutate_copy"):
+            if act in ("condition", "to_likelihood", "copy_enable_fd", "apply_model", "cond_factor", "mutate_copy", "mutate_original"):
                 return       # the behaviour cannot be continued (the spec object does not exist); C01 judges refusals
         if new is not None:
             obj, kind, fixed, v, extra = new
@@ -452,7 +495,7 @@ def run(ctx):
     from cuqiverif.core import MachineryError
     warnings.filterwarnings("ignore")
     rnd = random.Random(ctx.seed)
-    ACTIONS = ["DoCondition", "DoToLikelihood", "DoCondFactor", "DoMutateCopy", "DoCopyEnableFD", "DoApplyModel", "DoObserve"]
+    ACTIONS = ["DoCondition", "DoToLikelihood", "DoCondFactor", "DoMutateCopy", "DoMutateOriginal", "DoCopyEnableFD", "DoApplyModel", "DoObserve"]
     res = ctx.tlc("ObjHistory", cfg="ObjHistory.quick.cfg", workers=16, require_actions=ACTIONS)
     ctx.model_must_hold(res, "ObjHistory.quick")
     cases = sorted(res.cases, key=lambda c: json.dumps(c, sort_keys=True))     # TLC's workers emit in scheduling order
@@ -484,7 +527,7 @@ def run(ctx):
     allcases = cases + simcases + cases4
     feats = {json.dumps(c, sort_keys=True): _features(c) for c in allcases}
     wanted = ["act:condition", "act:logd", "act:gradient", "act:run_sampler", "act:gibbs", "act:apply_model", "act:mutate_copy", "act:cond_factor", "act:to_likelihood",
-              "act:copy_enable_fd", "act:sample", "act:bad_call", "staged_condition", "staged_condition_n4", "gibbs_on_cond",
+              "act:copy_enable_fd", "act:sample", "act:bad_call", "act:mutate_original", "mutate_derived_likelihood", "mutate_original_after_deriving", "staged_condition", "staged_condition_n4", "gibbs_on_cond",
               "sampler_on_cond", "derive_from_cond", "observe_after_mutate", "two_stage_partial_n4"]
     for ft in wanted:
         have = sum(1 for c in plan if ft in feats[json.dumps(c, sort_keys=True)])
@@ -507,7 +550,7 @@ def run(ctx):
         replay_case(ctx, c, par, r, sweeps if i % 7 == 0 else 5, 9000 + ctx.seed)
     need = {"action/condition", "action/to_likelihood", "action/copy_enable_fd", "action/apply_model", "action/logd",
             "action/gradient", "action/sample", "action/run_sampler", "action/gibbs", "action/cond_factor", "action/mutate_copy", "action/bad_call",
-            "sampler/MH", "sampler/CWMH", "sampler/MALA", "sampler/ULA", "sampler/NUTS"}
+            "action/mutate_original", "mutate/lik_fd_switch", "to_likelihood/method", "to_likelihood/call", "sampler/MH", "sampler/CWMH", "sampler/MALA", "sampler/ULA", "sampler/NUTS"}
     if not need <= set(ctx.facets):
         raise MachineryError("vacuous replay: actions never exercised: %s" % sorted(need - set(ctx.facets)))
     ctx.sample({"behaviour": plan[0]})
